@@ -74,3 +74,81 @@ func VP_C12_RevComp() {
 	vpObserveBytes("got", got)
 	vpReach("end")
 }
+
+// VP_C12_PanicBoundary: one byte over all 256 values: both functions panic
+// iff the byte is outside aAcCgGtTnN.
+func VP_C12_PanicBoundary() {
+	b := vpByte("b")
+	want := !vpIsDNA10(b)
+	p1 := vpPanics(func() { ReverseComplement(nil, []byte{b}) })
+	p2 := vpPanics(func() { ReverseComplementString(string([]byte{b})) })
+	vpAssert(p1 == want, "ReverseComplement panics iff byte outside aAcCgGtTnN")
+	vpAssert(p2 == want, "ReverseComplementString panics iff byte outside aAcCgGtTnN")
+	// embedded in a longer sequence as well
+	pos := vpCase("pos")
+	seq := []byte("acgtn")
+	seq[pos] = b
+	p3 := vpPanics(func() { ReverseComplement(nil, seq) })
+	vpAssert(p3 == want, "ReverseComplement panics iff some byte is outside the alphabet")
+	vpReach("end")
+}
+
+func vpRC(s []byte) []byte {
+	out := make([]byte, len(s))
+	for i := range s {
+		c, _ := vpComplement(s[len(s)-1-i])
+		out[i] = c
+	}
+	return out
+}
+
+func vpLexMin(a, b []byte) []byte {
+	for i := range a {
+		if a[i] != b[i] {
+			if a[i] < b[i] {
+				return a
+			}
+			return b
+		}
+	}
+	return a
+}
+
+// VP_C12_Canonical: CanonicalSubsequences(seq,k) yields len(seq)-k+1 items,
+// the i-th being the lexicographic minimum of seq[i:i+k] and its reverse
+// complement; the reverse complement of seq yields the same items reversed.
+func VP_C12_Canonical() {
+	n, k := vpCase("n"), vpCase("k")
+	seq := vpBytes("seq", n)
+	for _, b := range seq {
+		vpAssume(vpIsDNA10(b))
+	}
+	orig := append([]byte(nil), seq...)
+	var items [][]byte
+	for km := range CanonicalSubsequences(seq, k) {
+		items = append(items, append([]byte(nil), km...))
+	}
+	want := n - k + 1
+	if want < 0 {
+		want = 0
+	}
+	vpAssert(len(items) == want, "number of items is max(0, len-k+1)")
+	ok := len(items) == want
+	for i := 0; ok && i < want; i++ {
+		w := seq[i : i+k]
+		m := vpLexMin(w, vpRC(w))
+		ok = ok && bytes.Equal(items[i], m)
+	}
+	vpAssert(ok, "item i is the smaller of the window and its reverse complement")
+	vpAssert(bytes.Equal(seq, orig), "seq untouched")
+	var ritems [][]byte
+	for km := range CanonicalSubsequences(vpRC(orig), k) {
+		ritems = append(ritems, append([]byte(nil), km...))
+	}
+	ok = len(ritems) == len(items)
+	for i := 0; ok && i < len(items); i++ {
+		ok = ok && bytes.Equal(ritems[len(items)-1-i], items[i])
+	}
+	vpAssert(ok, "reverse complement yields the same items in opposite order")
+	vpReach("end")
+}
